@@ -120,7 +120,7 @@ class C05:
     def gen_case(self, seed, tier, index):
         st = Streams(seed)
         w, sc, env = st["workload"], st["schedule"], st["env"]
-        wl = sched.gen_workload(w)
+        wl = sched.gen_workload(w, scale=2 if (tier == "thorough" and w.random() < 0.5) else 1)
         runs = []
         for _ in range(sc.choice([2, 2, 3, 4])):
             n = sc.choice([sc.randint(1, 8), sc.randint(4, 40), sc.randint(20, 150), sc.randint(100, 400)])
